@@ -26,6 +26,14 @@ EXPECTED = {
 BOOKKEEPING = ("wasClean", "wasNotCleanReason", "wasOpenHandshakeTimeout", "wasCloseHandshakeTimeout", "wasServerConnectionDropTimeout")
 
 
+def _pcf(ctx):
+    """processControlFrame with the assembled control payload (b"".join(self.control_frame_data), whatever local holds it) called `payload`"""
+    from .common import recover_names
+    fn = ctx.program.func(f"{WSP}.processControlFrame")
+    return recover_names(ctx, fn, [("payload", "def", lambda v: isinstance(v, ast.Call) and isinstance(v.func, ast.Attribute) and v.func.attr == "join" and v.args
+                                    and norm.text(v.args[0]) == "self.control_frame_data")])
+
+
 def timer_table(ctx):
     an = get_analysis(ctx)
     table = {}
@@ -196,7 +204,7 @@ def rule_cancel(ctx):
             if not q.endswith("_cancelAutoPingTimeoutCall"):
                 ctx.ob(f"{attr} in {fn.name}: cancel only when armed", guarded, "cancel() on a handle that may be None", fn.loc(n.ast))
     # pong branch: matching payload required, handle cleared
-    fn = ctx.program.func(f"{WSP}.processControlFrame")
+    fn = _pcf(ctx)
     g, mf, res = an.get(fn)
     for n in g.stmt_nodes():
         for c in node_calls(n):
@@ -347,7 +355,7 @@ def rule_ping_cycle(ctx):
     inl = inline_private(ctx, cls, exclude=("_sendAutoPing", "_onPong", "_onPing", "onAutoPong", "onAutoPingTimeout", "_fail_connection"))
     send = ctx.program.func(f"{WSP}._sendAutoPing")
     cancel = ctx.program.func(f"{WSP}._cancelAutoPingTimeoutCall")
-    pcf = ctx.program.func(f"{WSP}.processControlFrame")
+    pcf = _pcf(ctx)
     for f in (send, cancel, pcf):
         ctx.analysed(f)
     an = get_analysis(ctx)
